@@ -121,6 +121,8 @@ impl FunctionExpression for ParseSyslogFn {
 /// December, it will take the previous year. Otherwise, take the current year.
 fn resolve_year((month, _date, _hour, _min, _sec): IncompleteDate) -> i32 {
     let now = Utc::now();
+    #[cfg(feature = "verif-hooks")]
+    let now = crate::verif::now_override().unwrap_or(now);
     if now.month() == 1 && month == 12 {
         now.year() - 1
     } else {
